@@ -6,6 +6,7 @@ import (
 	"sync/atomic"
 	"time"
 
+	"github.com/cbeuw/Cloak/internal/common"
 	"github.com/cbeuw/Cloak/internal/server/usermanager"
 
 	mux "github.com/cbeuw/Cloak/internal/multiplex"
@@ -117,6 +118,7 @@ type usagePair struct {
 // updateUsageQueue zeroes the accumulated usage all ActiveUsers valve and put the usage data im usageUpdateQueue
 func (panel *userPanel) updateUsageQueue() {
 	panel.activeUsersM.Lock()
+	common.VerifPoint("userPanel.updateUsageQueue:betweenLocks")
 	panel.usageUpdateQueueM.Lock()
 	for _, user := range panel.activeUsers {
 		if user.bypass {
